@@ -206,6 +206,14 @@ func (lex *Lexer) Reset() {
 	lex.linenum = 1
 	lex.preBuiltinRune = 0
 	lex.buffer.Reset()
+	// nothing of the previous text may influence the next one:
+	// queued but unread streams, the look-back ring, the previous tokens.
+	lex.next = nil
+	lex.prevrune = 0
+	lex.priori = 0
+	lex.priorRune = [20]rune{}
+	lex.prevToken = Token{}
+	lex.prevPrevToken = Token{}
 }
 
 // inOpenString reports whether the input so far ends inside a "..." string.
